@@ -239,6 +239,105 @@ def name_factory(ndirs, nfile, module_file):
     return ModuleNameSpec(ndirs, nfile, module_file)
 
 
+# ------------------------------------------------------------------------------------------------ (d) project root discovery
+
+ROOT_SHAPES = {
+    'module-in-src': ['p', 'src', 'a.gleam'],
+    'module-in-subdir': ['p', 'src', 'sub', 'a.gleam'],
+    'module-in-test': ['p', 'test', 'a.gleam'],
+    'module-elsewhere': ['p', 'other', 'a.gleam'],
+    'manifest': ['p', 'gleam.toml'],
+    'nested-project': ['q', 'p', 'src', 'a.gleam'],
+    'dependency-module': ['p', 'build', 'packages', 'd', 'src', 'a.gleam'],
+    'dependency-manifest': ['p', 'build', 'packages', 'd', 'gleam.toml'],
+    'dependency-in-nested': ['q', 'p', 'build', 'packages', 'd', 'src', 'm', 'a.gleam'],
+}
+
+
+def reference_root(comps, toml):
+    """the layout rules, two-stage: innermost package root that contains the file (a module must sit below its src/ or test/), then - for a
+    package under build/packages - the innermost enclosing project that is not itself under build/packages.  comps without the root marker;
+    toml = set of directory depths (number of components) that hold a gleam.toml"""
+    is_module = comps[-1].endswith('.gleam')
+    under_packages = lambda d: d >= 3 and comps[d - 2] == 'packages' and comps[d - 3] == 'build'
+    pkg = None
+    for d in range(len(comps) - 1, 0, -1):            # directory = comps[:d]
+        if d in toml and (not is_module or comps[d] in ('src', 'test')):
+            pkg = d; break
+    if pkg is None:
+        return None
+    if not under_packages(pkg):
+        return pkg
+    for d in range(pkg - 1, 0, -1):
+        if d in toml and not under_packages(d):
+            return d
+    return None
+
+
+class FindRootSpec:
+    """server::find_gleam_project_parent (real MIR) on a fixed path shape; WHICH ancestor directories hold a gleam.toml is symbolic
+    (Path::is_file is answered from those bits)."""
+
+    def __init__(self, shape):
+        self.shape = shape; self.comps = ROOT_SHAPES[shape]
+
+    def make_interp(self):
+        it = W.interp('glas')
+        scopes.install(it)
+        n = len(self.comps)
+        self.bits = {d: z3.Bool('toml_at_depth_%d' % d) for d in range(1, n)}
+        spec = self
+
+        def is_file(it_, c, a):
+            p_ = models._pv(a[0])
+            names = []
+            for x in p_.comps:
+                names.append('/' if x == 'ROOT' else bytes(b.v for b in x).decode())
+            if names[-1] != 'gleam.toml' or names[0] != '/':
+                return BoolV(False)
+            d = len(names) - 2
+            if names[1:-1] != spec.comps[:d] or d not in spec.bits:
+                return BoolV(d == 0 and False)
+            return BoolV(it_.choose([(spec.bits[d], True), (z3.Not(spec.bits[d]), False)]))
+        it.models['Path::is_file'] = is_file
+        return it
+
+    def run_path(self, it):
+        b = W.crates['glas']['server::find_gleam_project_parent']
+        path = PathV(['ROOT'] + [cbytes(x) for x in self.comps])
+        r = it.run_body(b, [RefV([path], 0)])
+        m = it.get_model()
+        toml = {d for d, bit in self.bits.items() if z3.is_true(m.eval(bit, model_completion=True))}
+        # bits the path never asked about are free: the reference must agree for every completion -> check both values of the free ones
+        asked = set()
+        got = None
+        if r.variant == 'Some':
+            pv = models._pv(r.fields[0])
+            got = len(pv.comps) - 1
+        bad = []
+        free = [d for d in self.bits if it.check(self.bits[d])[0] == z3.sat and it.check(z3.Not(self.bits[d]))[0] == z3.sat]
+        fixed = {d for d in self.bits if d not in free and it.check(self.bits[d])[0] == z3.sat}
+        import itertools
+        for combo in itertools.product([False, True], repeat=len(free)):
+            ts = set(fixed) | {d for d, v in zip(free, combo) if v}
+            want = reference_root(self.comps, ts)
+            if want != got:
+                show = lambda d: None if d is None else '/' + '/'.join(self.comps[:d])
+                bad.append('C17: file /%s with gleam.toml in %s: the project root found is %s, the layout rules give %s' % ('/'.join(self.comps), [show(d) for d in sorted(ts)], show(got), show(want)))
+                break
+        rec = {'cls': 'root:%s' % got, 'ok': True, 'sample': {'path': '/' + '/'.join(self.comps), 'manifests_at_depths': sorted(fixed), 'root_depth': got}}
+        if bad:
+            rec.update({'cls': 'violation', 'ok': False, 'why': bad, 'cex': {'path': '/' + '/'.join(self.comps), 'manifest_depths': sorted(fixed)}})
+        return rec
+
+    def on_panic(self, it, e):
+        return {'cls': 'panic:' + e.kind, 'ok': False, 'why': ['C17: find_gleam_project_parent panics: %s' % e], 'cex': {'path': '/' + '/'.join(self.comps)}}
+
+
+def root_factory(shape):
+    return FindRootSpec(shape)
+
+
 # ------------------------------------------------------------------------------------------------ (c) visible modules
 
 class VisibleSpec:
